@@ -34,28 +34,28 @@ Definition seg_count (count segsize : N) : N :=
 
 (* qarray_create_internal: size arithmetic.  [oshep] is the shepherd the code picks for the
    ALL_* kinds (current shepherd / random / least loaded: an oracle input). *)
+Definition layout (isd : bool) (us segpages pagesize : N) : N * N :=
+  if isd then
+    let sb0 := if segpages =? 0 then 16 * pagesize else segpages * pagesize in
+    let ss0 := sb0 / us in
+    if sb0 - ss0 * us <? 4 then
+      (if pagesize <? us
+       then (sb0 - (us / pagesize) * pagesize) + (if us mod pagesize =? 0 then pagesize else 0)
+       else sb0, ss0 - 1)
+    else (sb0, ss0)
+  else
+    let sb0 := if segpages =? 0
+               then (if 16 * pagesize <? us then N.lcm us pagesize else 16 * pagesize)
+               else segpages * pagesize in
+    (sb0, sb0 / us).
+
 Definition create (count obj : N) (d : distribution) (tight : bool) (segpages pagesize nsheps oshep : N) : desc :=
   let us := unit_size_of obj tight in
-  let '(sb, ss) :=
-    if is_dist d then
-      let sb0 := if segpages =? 0 then 16 * pagesize else segpages * pagesize in
-      let ss0 := sb0 / us in
-      if sb0 - ss0 * us <? 4 then
-        let ss1 := ss0 - 1 in
-        let sb1 := if pagesize <? us
-                   then (sb0 - (us / pagesize) * pagesize) + (if us mod pagesize =? 0 then pagesize else 0)
-                   else sb0 in
-        (sb1, ss1)
-      else (sb0, ss0)
-    else
-      let sb0 := if segpages =? 0
-                 then (if 16 * pagesize <? us then N.lcm us pagesize else 16 * pagesize)
-                 else segpages * pagesize in
-      (sb0, sb0 / us) in
-  let sc := seg_count count ss in
+  let lay := layout (is_dist d) us segpages pagesize in
+  let sc := seg_count count (snd lay) in
   let k := kind_of d in
   let sps0 := sc / nsheps in
-  mkdesc count us sb ss k
+  mkdesc count us (fst lay) (snd lay) k
          (match k with FIXED_FIELDS => if sps0 =? 0 then 1 else sps0 | _ => 0 end)
          (match k with FIXED_FIELDS => sc mod nsheps | _ => 0 end)
          (match k with ALL_SAME => oshep | _ => 0 end).
